@@ -285,7 +285,8 @@ class CallMixin:
         if caller is None or n is None or caller.depth + 1 > 4:
             return ""
         segs = [x for x in caller.callsite_key.split("<") if x]
-        segs.append("%s:%d" % (caller.qname.rsplit(".", 1)[-1], getattr(n, "lineno", 0)))
+        # line AND column: `return self._new(), self._new()` are two allocation contexts
+        segs.append("%s:%d.%d" % (caller.qname.rsplit(".", 1)[-1], getattr(n, "lineno", 0), getattr(n, "col_offset", 0)))
         return "".join("<" + x for x in segs[-3:])
 
     def bind_params(self, fi: FuncInfo, recv, args, kwargs, st: State, fr: Frame, entry=False):
